@@ -296,7 +296,8 @@ func paramNames(t callTarget) []string {
 	for i := 0; i < sig.Params().Len(); i++ {
 		n := sig.Params().At(i).Name()
 		if n == "" || n == "_" {
-			n = fmt.Sprintf("arg%d", i)
+			// unnamed: the absolute argument position (the receiver, if any, is arg0)
+			n = fmt.Sprintf("arg%d", len(names))
 		}
 		names = append(names, n)
 	}
